@@ -179,6 +179,12 @@ where
         // work = q + α*dq
         work.waxpby(T::one(), q, α, dq);
 
+        #[cfg(clarabel_verif)]
+        let is_in_cone_fcn = |w: &[T]| -> bool {
+            let r = is_in_cone_fcn(w);
+            crate::verif::emit_simple("Probe", &[r as i64], &[crate::verif::f64_of(α)]);
+            r
+        };
         if is_in_cone_fcn(work) {
             break;
         }
